@@ -31,6 +31,18 @@ LOG_BASES = {"log", "logger", "logging", "LOG"}
 LOG_METHODS = {"debug", "info", "warning", "warn", "error", "exception", "critical", "log"}
 SEQ_ARG_BUILTINS = {"bytes", "bytearray", "list", "tuple", "set", "frozenset", "sorted", "min", "max", "sum", "any", "all", "enumerate", "zip", "reversed", "iter"}
 PURE_CALLS = {"len", "int", "float", "min", "max", "abs", "bool", "isinstance", "tuple", "str", "bytes", "ord", "chr", "range", "repr"}
+PURE_DOTTED = {"os.path.join", "os.path.dirname", "os.path.basename", "os.path.splitext"}
+
+
+def _dotted_name(e: ast.AST) -> Optional[str]:
+    parts = []
+    while isinstance(e, ast.Attribute):
+        parts.append(e.attr)
+        e = e.value
+    if isinstance(e, ast.Name):
+        parts.append(e.id)
+        return ".".join(reversed(parts))
+    return None
 
 
 _TYPE_NAMES = {"int", "float", "str", "bytes", "bytearray", "bool", "list", "tuple", "dict", "set", "frozenset", "complex"}
@@ -134,7 +146,7 @@ def call_free(e: ast.AST, fresh_matters: bool = False) -> bool:
         if isinstance(n, (ast.List, ast.Dict, ast.Set)) and fresh_matters:
             return False
         if isinstance(n, ast.Call):
-            if not (isinstance(n.func, ast.Name) and n.func.id in PURE_CALLS):
+            if not ((isinstance(n.func, ast.Name) and n.func.id in PURE_CALLS) or _dotted_name(n.func) in PURE_DOTTED):
                 return False
     return True
 
@@ -369,8 +381,11 @@ class _Expr(ast.NodeTransformer):
                 left, right = right.right, right.left
         if isinstance(op, (ast.Eq, ast.NotEq)) and dump(left) > dump(right):
             left, right = right, left
-        if isinstance(op, (ast.In, ast.NotIn)) and isinstance(right, (ast.List, ast.Set)) and all(isinstance(x, ast.Constant) for x in right.elts):
-            right = ast.Tuple(elts=right.elts, ctx=ast.Load())
+        if isinstance(op, (ast.In, ast.NotIn)) and isinstance(right, ast.Call) and isinstance(right.func, ast.Name) and right.func.id in ("frozenset", "set", "tuple", "list") and len(right.args) == 1 and not right.keywords and isinstance(right.args[0], (ast.List, ast.Set, ast.Tuple)):
+            right = right.args[0]
+        if isinstance(op, (ast.In, ast.NotIn)) and isinstance(right, (ast.List, ast.Set, ast.Tuple)) and all(isinstance(x, ast.Constant) for x in right.elts):
+            # membership in a literal collection of constants does not depend on the order they are written in
+            right = ast.Tuple(elts=sorted(right.elts, key=lambda x: repr(x.value)), ctx=ast.Load())
         if isinstance(op, (ast.In, ast.NotIn)) and isinstance(right, ast.Tuple) and 1 <= len(right.elts) <= 6 and all(isinstance(x, ast.Constant) and isinstance(x.value, (str, int)) and not isinstance(x.value, bool) for x in right.elts) and is_simple(left):
             # membership in a literal tuple of strings / integers is a chain of equality tests
             parts = [self._single(ast.Compare(left=copy.deepcopy(left), ops=[ast.Eq()], comparators=[x])) for x in right.elts]
@@ -511,6 +526,8 @@ class _Expr(ast.NodeTransformer):
                 n.args = [g.generators[0].iter]
         if isinstance(f, ast.Name) and f.id in ("min", "max") and len(n.args) > 1 and not n.keywords and not any(isinstance(a, ast.Starred) for a in n.args):
             n.args = [ast.List(elts=list(n.args), ctx=ast.Load())]
+        if isinstance(f, ast.Name) and f.id == "list" and len(n.args) == 1 and not n.keywords and isinstance(n.args[0], (ast.Tuple, ast.List)) and not any(isinstance(e, ast.Starred) for e in n.args[0].elts):
+            return ast.List(elts=list(n.args[0].elts), ctx=ast.Load())
         if isinstance(f, ast.Name) and f.id in ("dict", "list") and not n.args and not n.keywords:
             return ast.Dict(keys=[], values=[]) if f.id == "dict" else ast.List(elts=[], ctx=ast.Load())
         if isinstance(f, ast.Attribute) and f.attr == "get" and len(n.args) == 2 and isinstance(n.args[1], ast.Constant) and n.args[1].value is None:
@@ -1025,6 +1042,18 @@ class Normaliser:
                 if call_free(inner.test) and dump(st.body) == dump(inner.body):
                     new = ast.If(test=ast.BoolOp(op=ast.Or(), values=[st.test, inner.test]), body=st.body, orelse=inner.orelse)
                     return out[:i] + self._if_shape(new) + out[i + 1 :], True
+                pass
+            if isinstance(st, ast.If) and len(st.body) == 1 and isinstance(st.body[0], ast.If) and st.orelse:
+                # the mirror image (canonical polarity puts the shared arm last): if T: (if C: S else: R) else: S
+                inner = st.body[0]
+                if call_free(inner.test) and inner.orelse and dump(inner.body) == dump(st.orelse):
+                    new = ast.If(test=ast.BoolOp(op=ast.And(), values=[st.test, negate(inner.test)]), body=inner.orelse, orelse=st.orelse)
+                    return out[:i] + self._if_shape(new) + out[i + 1 :], True
+                if call_free(inner.test) and dump(inner.orelse) == dump(st.orelse):
+                    new = ast.If(test=ast.BoolOp(op=ast.And(), values=[st.test, inner.test]), body=inner.body, orelse=st.orelse)
+                    return out[:i] + self._if_shape(new) + out[i + 1 :], True
+            if isinstance(st, ast.If) and len(st.orelse) == 1 and isinstance(st.orelse[0], ast.If) and st.body:
+                inner = st.orelse[0]
                 if call_free(inner.test) and inner.orelse and dump(st.body) == dump(inner.orelse):
                     # if A: S else: (if B: R else: S)   ->   if A or not B: S else: R
                     new = ast.If(test=ast.BoolOp(op=ast.Or(), values=[st.test, negate(inner.test)]), body=st.body, orelse=inner.body)
@@ -1264,8 +1293,28 @@ class Normaliser:
                 return [ast.Assign(targets=[t], value=v) for t, v in zip(tg, vs)]
         return [st]
 
+    def _fresh_targets(self, v: ast.expr) -> ast.expr:
+        """The variables of a comprehension are its own: before it is turned into a loop they get names nothing else uses."""
+        v = copy.deepcopy(v)
+        g = v.generators[0]  # type: ignore[attr-defined]
+        names = {n.id for n in ast.walk(g.target) if isinstance(n, ast.Name)}
+        if not names:
+            return v
+        self.fresh += 1
+        ren = {n: f"{n}$c{self.fresh}" for n in names}
+        parts = [g.target] + list(g.ifs) + ([v.elt] if hasattr(v, "elt") else [v.key, v.value])  # type: ignore[attr-defined]
+        for part in parts:
+            for n in ast.walk(part):
+                if isinstance(n, ast.Name) and n.id in ren:
+                    n.id = ren[n.id]
+        return v
+
     def _uncomp(self, v: ast.expr, into: Optional[str] = None) -> Tuple[list, ast.expr]:
         """[e for t in it if c]  ->  tmp = []; for t in it: if c: tmp.append(e)"""
+        if isinstance(v, (ast.ListComp, ast.DictComp)) and len(v.generators) == 1 and not v.generators[0].is_async:
+            if into is not None and into in names_in(v):
+                return [], v
+            v = self._fresh_targets(v)
         if isinstance(v, ast.ListComp) and len(v.generators) == 1 and not v.generators[0].is_async:
             g = v.generators[0]
             if into is not None and into in names_in(v):
@@ -1393,7 +1442,7 @@ def _eval_order(e: ast.AST, out: list) -> None:
         if isinstance(ch, (ast.expr_context, ast.operator, ast.unaryop, ast.cmpop, ast.boolop)):
             continue
         _eval_order(ch, out)
-    if isinstance(e, ast.Call) and not (isinstance(e.func, ast.Name) and e.func.id in PURE_CALLS):
+    if isinstance(e, ast.Call) and not (isinstance(e.func, ast.Name) and e.func.id in PURE_CALLS) and _dotted_name(e.func) not in PURE_DOTTED:
         # subscripts and arithmetic may raise but change nothing: a value moved past them is computed from the same state
         out.append(("effect", e))
 
@@ -1657,6 +1706,7 @@ class Ctx:
         self.cls = cls
         self.module_names = module_names
         self.counter = 0
+        self.use_extra = False
 
     def resolve(self, func: ast.expr, self_name: Optional[str]) -> Optional[Tuple[str, ast.AST, bool]]:
         """(key, def node, bound) for a call target that is an inlinable helper."""
@@ -1668,6 +1718,12 @@ class Ctx:
     def _resolve(self, func: ast.expr, self_name: Optional[str]) -> Optional[Tuple[str, ast.AST, bool]]:
         if isinstance(func, ast.Name) and func.id in self.helpers:
             return func.id, self.helpers[func.id], False
+        if self.use_extra:
+            # a new function of another changed module, called by its imported name or as <module>.<name>
+            if isinstance(func, ast.Name) and func.id in EXTRA_HELPERS and func.id not in self.module_names:
+                return func.id, EXTRA_HELPERS[func.id], False
+            if isinstance(func, ast.Attribute) and isinstance(func.value, ast.Name) and func.attr in EXTRA_HELPERS and func.value.id not in (self_name, "self", "cls"):
+                return func.attr, EXTRA_HELPERS[func.attr], False
         if isinstance(func, ast.Attribute) and isinstance(func.value, ast.Name):
             base = func.value.id
             if self.cls is not None and base in (self_name, "cls", self.cls.split(".")[-1]) and base is not None:
@@ -1847,6 +1903,7 @@ class Inliner:
 
     def ctx_without(self, key: str) -> Ctx:
         c = Ctx({k: v for k, v in self.ctx.helpers.items() if k != key}, self.ctx.consts, self.ctx.cls, self.ctx.module_names)
+        c.use_extra = self.ctx.use_extra
         return c
 
     def run(self) -> bool:
@@ -2341,6 +2398,7 @@ def normal_form(fn: ast.AST, ctx: Ctx) -> str:
     _Strip().visit(g)
     separate_scopes(g)
     Inliner(ctx, g).run()
+    separate_scopes(g)  # lambdas / nested functions that came in with inlined helpers
     norm = Normaliser(bound_names=_param_names(g), list_locals=_list_locals(g))
     prev = None
     for _ in range(8):
@@ -2428,6 +2486,8 @@ def _rename_everywhere(tree: ast.AST, mapping: Dict[str, str]) -> None:
 # literal constants that are new in some other changed module of the package (set by Model before healing): a name imported from
 # there is replaced by its value like a local new constant
 EXTRA_CONSTS: Dict[str, ast.expr] = {}
+# top-level functions that are new in some other changed module (a helper moved out of this module, or shared between modules)
+EXTRA_HELPERS: Dict[str, ast.AST] = {}
 
 _REF_IDENTIFIERS: Optional[Set[str]] = None
 
@@ -2576,7 +2636,9 @@ def heal_module(rel: str, src: str, tree: ast.Module) -> Tuple[ast.Module, List[
         if dump(cnode) == dump(rnode):
             continue
         try:
-            ncur = normal_form(cnode, Ctx(cur_helpers, cur_consts, ccls, mod_names_c))
+            cctx = Ctx(cur_helpers, cur_consts, ccls, mod_names_c)
+            cctx.use_extra = True
+            ncur = normal_form(cnode, cctx)
             nref = normal_form(rnode, Ctx(ref_helpers, ref_consts, rcls, mod_names_r))
         except (NotInlinable, RecursionError, AttributeError, TypeError, ValueError, IndexError, KeyError) as e:  # pragma: no cover - a rewrite that cannot be applied is "not proven"
             log.append(f"{rel}:{key}: normal form failed ({type(e).__name__}: {e})")
